@@ -245,7 +245,10 @@ func (s Server) Serve(c context.Context, conn network.Conn) (err error) {
 		}
 
 		// Read Headers
+		isHead := false
 		if err = req.ReadHeader(&ctx.Request.Header, zr); err == nil {
+			// a failing body read resets the request
+			isHead = ctx.IsHead()
 			if s.EnableTrace {
 				// read header finished
 				if last := eventsToTrigger.pop(); last != nil {
@@ -284,7 +287,7 @@ func (s Server) Serve(c context.Context, conn network.Conn) (err error) {
 			if err == io.EOF {
 				return errUnexpectedEOF
 			}
-			writeErrorResponse(zw, ctx, serverName, err)
+			writeErrorResponse(zw, ctx, serverName, err, isHead)
 			return
 		}
 
@@ -321,7 +324,7 @@ func (s Server) Serve(c context.Context, conn network.Conn) (err error) {
 				}
 
 				if err != nil {
-					writeErrorResponse(zw, ctx, serverName, err)
+					writeErrorResponse(zw, ctx, serverName, err, isHead)
 					return
 				}
 			}
@@ -490,7 +493,9 @@ func NewServer() *Server {
 	}
 }
 
-func writeErrorResponse(zw network.Writer, ctx *app.RequestContext, serverName []byte, err error) network.Writer {
+// writeErrorResponse answers a request that could not be read. isHead: its header
+// was read and the method is HEAD, the answer must not carry a body then.
+func writeErrorResponse(zw network.Writer, ctx *app.RequestContext, serverName []byte, err error, isHead bool) network.Writer {
 	errorHandler := defaultErrorHandler
 
 	errorHandler(ctx, err)
@@ -499,6 +504,9 @@ func writeErrorResponse(zw network.Writer, ctx *app.RequestContext, serverName [
 		ctx.Response.Header.SetServerBytes(serverName)
 	}
 	ctx.SetConnectionClose()
+	if isHead {
+		ctx.Response.SkipBody = true
+	}
 	if zw == nil {
 		zw = ctx.GetWriter()
 	}
